@@ -42,7 +42,10 @@ def expected_numeric(E, k, x, y, w, mp, i):
         gv = Fraction(g.f.num.val) / Fraction(g.f.den.val)
         if gv <= Fraction(1, 10 ** 9):
             return []          # regressor (numerically) constant: no claim
-    ref = k.oracle(wx, wy, sqrt=ctx.f_sqrt, window=w) if k.two else k.oracle(wx, sqrt=ctx.f_sqrt, window=w)
+    cur = (xs[i] if maskx[i] else None) if k.needs_cur else None
+    if k.needs_cur and cur is None:
+        return [float("nan")]
+    ref = k.oracle(wx, wy, sqrt=ctx.f_sqrt, window=w) if k.two else k.oracle(wx, sqrt=ctx.f_sqrt, window=w, cur=cur)
     if isinstance(ref, str):
         return []
     want = replay.vf_to_float(ref) if ref is not None else float("nan")
@@ -182,7 +185,7 @@ def validate_translator(v, E, names, vectors=None, nrand=20):
     return checked
 
 
-def run_family(v, E, prop, names, tier, shapes, opts=None):
+def run_family(v, E, prop, names, tier, shapes, opts=None, flags_only=False, positions_of=None):
     """shapes(k, tier) -> iterable of (L, w, mp, mask, mask2). Folds results into Verdict v."""
     opts = opts or {}
     only = opts.get("only")
@@ -200,7 +203,8 @@ def run_family(v, E, prop, names, tier, shapes, opts=None):
             for (L, w, mp, mask, mask2) in shapes(k, tier):
                 if reported:
                     break          # one reproduced counterexample per kernel is enough; keep the run short
-                res = check_shape(E, k, L, w, mp, mask, mask2)
+                res = check_shape(E, k, L, w, mp, mask, mask2, flags_only=flags_only,
+                                  positions=positions_of(L, w) if positions_of else None)
                 q += res.queries
                 nshapes += 1
                 unknown += len(res.unknown)
